@@ -328,7 +328,15 @@ impl Ctx {
                             return Ok(());
                         }
                         let mut obs = Obs::default();
-                        let v = self.resolve(check(&c, &mut obs));
+                        // a panic that escapes the oracle is a harness defect, never a violation
+                        let raw = match std::panic::catch_unwind(std::panic::AssertUnwindSafe(|| check(&c, &mut obs))) {
+                            Ok(v) => v,
+                            Err(_) => {
+                                eprintln!("INCONCLUSIVE: {name}: the harness itself panicked while checking {c:?}");
+                                std::process::exit(2);
+                            }
+                        };
+                        let v = self.resolve(raw);
                         match v {
                             Verdict::Pass => {
                                 if !failed.get() {
